@@ -492,6 +492,13 @@ def main(prop_name, tier, seed, budget_s=None, procs=None, only=None):
                 results.append(r)
     else:
         results, skipped = run_pool(prop_name, jobs, opts, procs, hard_s, t0 + budget_s)
+    # a reachability twin that was not refuted (e.g. a solver timeout under load) gets one more, unhurried attempt before it counts
+    for k, r in enumerate(results):
+        if r["spec"].get("twin") and not r.get("violations") and not r.get("error"):
+            o2 = dict(opts)
+            o2["timeout_ms"] = opts["timeout_ms"] * 4
+            o2["job_budget_s"] = opts["job_budget_s"] * 4
+            results[k] = run_job((prop_name, r["spec"], o2))
     ground = {"ran": False}
     if gt is not None:
         try:
@@ -635,8 +642,14 @@ def finish(prop, PROP, tier, seed, jobs, results, skipped, t0, opts):
     known_hit = {}
     n_viol = 0
     cvc = {"checked": 0, "agree": 0, "unknown": 0, "disagree": 0, "time_s": 0.0, "examples": []}
+    cfs = {"jobs": 0, "paths": 0, "vcs": 0, "unsat": 0, "unknown": 0, "violations_on_real_code": 0}
     for r in results:
         spec = r["spec"]
+        cf = r.get("counterfactual")
+        if cf:
+            cfs["jobs"] += 1
+            for k2 in ("paths", "vcs", "unsat", "unknown", "violations_on_real_code"):
+                cfs[k2] += cf.get(k2, 0)
         if spec.get("twin"):
             twins_run += 1
             if r["violations"]:
@@ -730,6 +743,8 @@ def finish(prop, PROP, tier, seed, jobs, results, skipped, t0, opts):
             "encoding_validation": {"what": "the repository's own test-suite executed under the engine in ground mode (all constants exact rational proxies, "
                                             "elementary functions as axiomatised terms, comparisons decided by z3); must pass", **(opts.get("_ground") or {})},
             "known_findings_hit": known_hit,
+            "known_finding_counterfactual_reexploration": {**cfs, "note": "trees with a witness attributed to a known finding are explored again with exactly that "
+                                                                             "cause neutralised; all obligations there must be discharged (rest of the input space stays verified)"},
             "axiom_schemas": _schemas(),
             "harness_error": harness_error,
         },
